@@ -38,6 +38,8 @@ func (c07) Assumptions() []string {
 
 func (c07) Gates(tier string, m map[string]int64) []rt.Gate {
 	return []rt.Gate{
+		rt.GateMin("ORDER BY naming the same column twice", m, "repeated_order_column", 20),
+		rt.GateMin("sort keys defined through another select field", m, "alias_defined_sort_key", 50),
 		rt.GateMin("ordered results checked", m, "checked", 2000),
 		rt.GateMin("ties on the first key resolved by a later key", m, "tie_resolved_by_later_key", 100),
 		rt.GateMin("descending keys", m, "desc_keys", 500),
@@ -150,6 +152,19 @@ func (k c07) Run(c *rt.Ctx) {
 	} else {
 		fields = append(fields, c07Field{gen.Key(), "key", 'S'}, c07Field{gen.Value(), "value", 'S'})
 		fields = append(fields, c07Fields(r)...)
+		if r.Chance(1, 4) {
+			// sort keys defined through another field: the type of `v0 + ':' + key` is only
+			// known once the name v0 is resolved
+			v0 := gen.Value()
+			fields = append(fields, c07Field{v0, "v0", 'S'})
+			if r.Bool() {
+				fields = append(fields, c07Field{gen.Bin("+", gen.Bin("+", gen.Ref("v0", v0), gen.Str(":")), gen.Key()), "cc", 'S'})
+			} else {
+				n0 := gen.Call("strlen", gen.Value())
+				fields = append(fields, c07Field{n0, "n0", 'N'}, c07Field{gen.Bin("+", gen.Call("str", gen.Ref("n0", n0)), gen.Ref("v0", v0)), "cc", 'S'})
+			}
+			c.Rec.Inc("alias_defined_sort_key")
+		}
 	}
 	for _, f := range fields {
 		al := f.name
@@ -195,8 +210,15 @@ func (k c07) Run(c *rt.Ctx) {
 		seen := map[string]bool{}
 		for i := 0; i < nk; i++ {
 			f := fields[r.Intn(len(fields))]
+			if f.name != "cc" && fields[len(fields)-1].name == "cc" && r.Bool() {
+				f = fields[len(fields)-1]
+			}
 			if seen[f.name] {
-				continue
+				// now and then the same column twice (the repetition can never decide)
+				if !r.Chance(1, 3) {
+					continue
+				}
+				c.Rec.Inc("repeated_order_column")
 			}
 			seen[f.name] = true
 			desc := r.Bool()
